@@ -85,7 +85,7 @@ func init() {
 			}
 			h, err := seqhash.Hash(string(buf), a[2], a[3] == "true", a[4] == "true")
 			if err != nil {
-				return nil, err
+				h = "err" // per word: a family in which only SOME words are rejected must stay judgeable
 			}
 			out = append(out, h)
 			i := n - 1
